@@ -12,6 +12,7 @@ INVARIANT BatchSubjects
 INVARIANT BatchObjects
 INVARIANT NonVacuous
 INVARIANT OutcomeWF
+INVARIANT LawsCopyAgrees
 INVARIANT RenamingInvariant
 PROPERTY Monotone
 CHECK_DEADLOCK FALSE
